@@ -135,11 +135,11 @@ headers, kinds of statements and the names they bind) they had when the model wa
 loop, early exit or rebinding has been added that the model does not describe -/
 theorem modelled_functions_have_the_transcribed_shape :
     MlVerif.Gen.C14.shapeMixinNgrams =
-      "if(stop_words is not None){tokens=};if(tokens is not None){new_tokens=;for(token in tokens){call append};tokens=};(min_n,max_n)=;if(max_n != 1){original_tokens=;if(min_n == 1){tokens=;min_nAdd=}else{tokens=};n_original_tokens=;tokens_append=;def space_join{new_tokens=;for(token in tokens){if(isinstance(token, str)){call append}else{if(isinstance(token, tuple)){call extend}else{raise}}};return};for(n in range(min_n, min(max_n + 1, n_original_tokens + 1))){for(i in range(n_original_tokens - n + 1)){call tokens_append}}};return" ∧
+      "sig(self, tokens, stop_words=None)|if(stop_words is not None){tokens=};if(tokens is not None){new_tokens=;for(token in tokens){call append};tokens=};(min_n,max_n)=;if(max_n != 1){original_tokens=;if(min_n == 1){tokens=;min_nAdd=}else{tokens=};n_original_tokens=;tokens_append=;def space_join{new_tokens=;for(token in tokens){if(isinstance(token, str)){call append}else{if(isinstance(token, tuple)){call extend}else{raise}}};return};for(n in range(min_n, min(max_n + 1, n_original_tokens + 1))){for(i in range(n_original_tokens - n + 1)){call tokens_append}}};return" ∧
     MlVerif.Gen.C14.shapeCountNgrams =
-      "return" ∧
+      "sig(self, tokens, stop_words=None)|return" ∧
     MlVerif.Gen.C14.shapeTfidfNgrams =
-      "return" :=
+      "sig(self, tokens, stop_words=None)|return" :=
   ⟨rfl, rfl, rfl⟩
 
 /-! ### non-vacuity: concrete instances -/
